@@ -14,7 +14,7 @@ Call(f, args) == [t |-> "call", name |-> f, args |-> args]
 Bin(op, a, b) == [t |-> "bin", op |-> op, a |-> a, b |-> b]
 
 PNames == <<"p1", "p2", "p3", "p4">>
-ArgLits == <<Lit(I(1)), Lit(S(<<"b">>)), Var(<<"mk">>), Lit(B(TRUE)), Var(<<"nope">>)>>   \* the i-th argument
+ArgLits == <<Lit(I(1)), Var(<<"nope">>), Var(<<"mk">>), Lit(B(TRUE)), Lit(S(<<"b">>))>>   \* the i-th argument (the second one evaluates to nil: supplied, not omitted)
 DefLits == <<Lit(S(<<"d","1">>)), Var(<<"outer">>), Lit(I(20)), Bin("+", Var(<<"outer">>), Lit(S(<<"x">>)))>>
 
 Ctx == [mk |-> S(<<"M1">>), outer |-> S(<<"o">>), l2 |-> L(<<I(1), I(2)>>)]
